@@ -305,12 +305,13 @@ def gen_function_visible(bdir):
 class C07(Prop):
     id = "C07"
     title = "calls reach the right function and respect visibility, whatever came before"
-    lean_modules = ["NV.C07.Props", "NV.C07.Witness"]
+    lean_modules = ["NV.C07.Props", "NV.C07.Witness", "NV.C07.OracleTests"]
     theorems = ["NV.C07.visibility_table", "NV.C07.visibility_any_flags", "NV.C07.visibility_lifted",
                 "NV.C07.driver_origins_never_refused", "NV.C07.bsearch_correct", "NV.C07.find_function_correct",
                 "NV.C07.find_offsets_are_path_sums", "NV.C07.cache_transparent_step", "NV.C07.cache_transparent",
-                "NV.C07.frame_offsets_correct", "NV.C07.built_alias_flags_agree", "NV.C07.built_flags_agree", "NV.C07.built_inherits_in_world", "NV.C07.inherit_flags_rule_is_spec"]
-    witness_theorems = ["NV.C07.Witness.old_cache_not_transparent"]
+                "NV.C07.frame_offsets_correct", "NV.C07.call_other_origin_is_call_other", "NV.C07.call_origin_consumed",
+                "NV.C07.built_alias_flags_agree", "NV.C07.built_flags_agree", "NV.C07.built_inherits_in_world", "NV.C07.inherit_flags_rule_is_spec"]
+    witness_theorems = ["NV.C07.Witness.old_cache_not_transparent", "NV.C07.Witness.origin_stored_once_runs_static"]
     consts = [("applyCacheBits", "APPLY_CACHE_BITS"),
               ("nameInherited", "NAME_INHERITED"), ("nameUndefined", "NAME_UNDEFINED"),
               ("namePrototype", "NAME_PROTOTYPE"), ("nameDefByInherit", "NAME_DEF_BY_INHERIT"),
@@ -342,6 +343,8 @@ class C07(Prop):
             "program with private/static/public/protected modifiers, overriding, prototypes before and after inherits, "
             "`::f` / `A::f` / local / function-pointer calls in bodies) x 12-45 calls by name from call_other (shared and "
             "copied name string), driver apply, call_out-origin apply and real call_out, with refused and non-existent names, "
+            "call_other on ARRAY targets (objects, file names, non-objects; the function at every position) and on FILE NAME "
+            "targets (loaded / loaded by the call, running create() in between / no such file), heart_beat ticks, "
             "cache clears and forced slot collisions; every case is run on the real driver, by the model on the dumped real "
             "tables and by the specification on the abstract graph; a case is non-trivial when at least one call ran a body")
     not_covered = ["the construction of the function tables (copy_functions, overload_function, define_new_function, epilog, "
@@ -391,6 +394,9 @@ class C07(Prop):
                     continue
                 if len(t) == 3 and t[0] == "ld" and "/" not in t[2]:
                     l = "ld %s %s/%s" % (t[1], base, t[2])
+                if len(t) == 4 and t[0] == "call" and t[1] in ("coa", "cos"):
+                    el = ["=%s/%s" % (base, e[1:]) if e.startswith("=") and "/" not in e else e for e in t[2].split(",")]
+                    l = "call %s %s %s" % (t[1], ",".join(el), t[3])
                 lines.append(l)
             hc.append(E.Case(c.id, lines))
         res = E.run_harness(self.exe, self.conf, hc, ctx.rundir)
@@ -469,6 +475,22 @@ class C07(Prop):
         mk("prototypes", protos + ["names f0 f1 f2 f3 f4", "ld o1 p1", "ld o2 p2", "dump o1 o2", "call co o1 f0", "call co o1 f1",
                                    "call drv o1 f1", "call co o1 f2", "call drv o1 f3", "call co o2 f4", "call co o2 f2",
                                    "call drv o1 f2"])
+        # f_call_other's target kinds: the restricted function at every position of an array target, string targets
+        # (loaded / loaded by the call / no such file), create() running in between
+        tk = ["prog p0 d:-:f0:- d:static:f1:- d:-:create:Lf0",
+              "prog p1 i:-:p0 d:static:f0:- d:-:f2:-",
+              "prog p2 d:protected:f0:- d:static:create:-",
+              "prog p3 i:-:p1 d:-:f3:Lf0"]
+        seq = ["names f0 f1 f2 f3 create nosuch", "ld o0 p0", "ld o1 p1", "dump o0 o1"]
+        for fn in ("f0", "f1", "f2"):
+            seq += ["call coa o0,o1 %s" % fn, "call coa o1,o0 %s" % fn, "call coa o0,o0,o1,o0 %s" % fn,
+                    "call coa 0,o1,=nofile,o0 %s" % fn]
+        seq += ["call cos =p0 f1", "call cos =p1 f0", "call cos =p2 f0", "call drv o0 f1",
+                "call coa o0,=p3,o1 f0", "call coa =p3,o0 f3", "call cos =p3 f0", "call cos =nofile f0",
+                "call cos =p2 create", "call coa =p2,o0 f1", "call cos =p3 f3"]
+        mk("call-other-target-kinds", tk + seq)
+        mk("string-target-loads-before-the-call", tk + ["names f0 f1 f2 f3 create", "dump", "call cos =p3 f0", "call cos =p3 f3",
+                                                       "call cos =p2 f0", "call coa =p1,=p0 f1", "call coa =p0,=p1 f0"])
         # heart_beat origin: static heart_beat, inherited, overridden, prototype only, none at all
         hbg = ["prog p0 d:-:f0:- d:static:heart_beat:Lf0",
                "prog p1 i:private:p0 d:-:f1:-",
@@ -501,6 +523,8 @@ class C07(Prop):
         fpool = ["f%d" % i for i in range(rng.range(3, 7))]
         if rng.chance(1, 2):
             fpool.append("heart_beat")
+        if rng.chance(1, 3):
+            fpool.append("create")          # runs when the object is loaded (by ld or by a call_other to its file name)
         for k in range(n):
             P = AProg("p%d" % k)
             cands = [q for q in order if depth(g, q) <= 3]
@@ -521,7 +545,7 @@ class C07(Prop):
             g[P.name] = P
             order.append(P.name)
             vis = visible_names(g, P.name)
-            fnum = lambda f: 99 if f == "heart_beat" else int(f[1:])     # heart_beat may call the others, never the reverse
+            fnum = lambda f: 99 if f == "heart_beat" else 98 if f == "create" else int(f[1:])   # these may call the others, never the reverse
             ndef = rng.range(1, min(4, len(fpool)))
             mine = sorted(rng.shuffle(fpool)[:ndef], key=fnum)
             for fn in mine:
@@ -529,6 +553,12 @@ class C07(Prop):
                     P.items.append(("p", rng.choice(MODS), fn))
                 calls = []
                 inh = P.inherits()
+                if fn == "create":
+                    # an error inside create() aborts the load; keep create() bodies call-free (the boundary cases have
+                    # a create() that calls)
+                    P.items.append(("d", rng.weighted([("-", 6), ("static", 3), ("private", 2), ("protected", 1)]), fn, []))
+                    vis = visible_names(g, P.name)
+                    continue
                 # super calls
                 for _ in range(rng.weighted([(0, 5), (1, 5), (2, 1)])):
                     target = fn if rng.chance(4, 5) else rng.choice(fpool)
@@ -562,7 +592,7 @@ class C07(Prop):
         g, order, fpool = self.gen_graph(rng)
         lines = [g[n].line() for n in order]
         extra = ["nosuch", "f9"]
-        lines.append("names " + " ".join(fpool + extra + ([] if "heart_beat" in fpool else ["heart_beat"])))
+        lines.append("names " + " ".join(fpool + extra + [x for x in ("heart_beat", "create") if x not in fpool]))
         nobj = rng.range(1, min(3, len(order)))
         # prefer the most derived programs
         top = order[::-1]
@@ -574,8 +604,23 @@ class C07(Prop):
             lines.append("ld %s %s" % (oid, p))
         lines.append("dump " + " ".join(objs))
         last = None
+        def target_elem():
+            k = rng.weighted([("oid", 6), ("path", 4), ("nofile", 1), ("int", 1)])
+            if k == "oid":
+                return rng.choice(objs)
+            if k == "path":
+                return "=" + rng.choice(order)       # the named object: loaded already, or loaded by this call
+            return "=nofile" if k == "nofile" else "0"
         for _ in range(rng.range(12, 45)):
-            k = rng.weighted([("call", 30), ("cold", 2), ("evict", 3), ("again", 8)])
+            k = rng.weighted([("call", 30), ("cold", 2), ("evict", 3), ("again", 8), ("coa", 5), ("cos", 4)])
+            if k in ("coa", "cos"):
+                fn = rng.choice(fpool) if rng.chance(9, 10) else rng.choice(extra)
+                if k == "coa":
+                    els = [target_elem() for _ in range(rng.range(1, 4))]
+                    lines.append("call coa %s %s" % (",".join(els), fn))
+                else:
+                    lines.append("call cos %s %s" % ("=" + rng.choice(order) if rng.chance(9, 10) else "=nofile", fn))
+                continue
             if k == "call" or last is None:
                 fn = rng.choice(fpool) if rng.chance(9, 10) else rng.choice(extra)
                 last = (rng.choice(objs), fn)
